@@ -23,6 +23,9 @@ pub enum Step {
     Push(usize),
     /// the server pushes something the client cannot parse
     PushGarbage(u8),
+    /// the server pushes the n-th scheme while a client packet with this many payload bytes is parked on a
+    /// transport that does not accept bytes for a moment (back-pressure); the transport recovers afterwards
+    PushDuringWrite(usize, usize),
 }
 
 #[derive(Clone, Debug)]
@@ -81,7 +84,7 @@ pub fn gen_history(rng: &mut Rng) -> History {
         }
         // always at least one push followed by packets
         let at = rng.usize(1, steps.len().min(3));
-        steps.insert(at, Step::Push(rng.usize(1, 3)));
+        steps.insert(at, if rng.chance(0.35) { Step::PushDuringWrite(rng.usize(1, 3), *rng.pick(&[0usize, 40, 700, 4000, 20000])) } else { Step::Push(rng.usize(1, 3)) });
         steps.push(Step::Packet(50));
         steps.push(Step::Packet(400));
         sessions.push(steps);
@@ -114,6 +117,7 @@ async fn run_history(h: &History) -> Value {
     let mut packets_checked = 0u64;
     let mut packets_after_push = 0u64;
     let mut pushes = 0u64;
+    let mut pushes_during_write = 0u64;
     // what a well-behaved client process would use for the next session: starts with scheme 0
     for (si, steps) in h.sessions.iter().enumerate() {
         let initial = engine::padding_from(&sch[0].text()).expect("scheme");
@@ -196,6 +200,59 @@ async fn run_history(h: &History) -> Value {
                     current = *i;
                     pushes += 1;
                 }
+                Step::PushDuringWrite(i, n) => {
+                    // the transport stops taking bytes; a packet is submitted and parks; the push arrives and is
+                    // processed; the transport recovers (well inside every write timeout of the session)
+                    cv.c2s.set_cfg(|c| c.capacity = 0);
+                    let data = pat.make(off, *n);
+                    off += *n as u64;
+                    let (cl, sid) = (cv.client.clone(), stream.id());
+                    let parked = tokio::spawn(async move { cl.write_data_frame(sid, Bytes::from(data)).await });
+                    tokio::time::sleep(Duration::from_millis(100)).await;
+                    let raw = raw(&sch, *i);
+                    if cv.peer.send(refcodec::UPDATE_PADDING, 0, raw.as_bytes()).await.is_err() {
+                        problems.push(json!({"symptom": "session_disturbed", "detail": "client side of the transport is gone"}));
+                        break;
+                    }
+                    tokio::time::sleep(Duration::from_secs(1)).await;
+                    cv.c2s.set_cfg(|c| c.capacity = usize::MAX);
+                    match tokio::time::timeout(Duration::from_secs(600), parked).await {
+                        Ok(Ok(Ok(()))) => {}
+                        other => {
+                            problems.push(json!({"symptom": "session_disturbed", "detail": format!("session {si} step {sti}: the packet parked behind a 1.1 s transport stall while a scheme was pushed did not complete: {:?}", other.map(|r| r.map(|x| x.map_err(|e| e.to_string()))))}));
+                            break;
+                        }
+                    }
+                    k += 1;
+                    let writes: Vec<usize> = cv.c2s.with_log(|l| l.writes[mark..].iter().map(|w| w.accepted).collect());
+                    mark += writes.len();
+                    let mut payload = 7 + *n;
+                    if first {
+                        let md5 = format!("{:x}", md5::compute(sch[0].text().as_bytes()));
+                        payload += 7 + "v=2".len() + 1 + "client=anytls-rs/0.1.0".len() + 1 + "padding-md5=".len() + md5.len() + 7;
+                        first = false;
+                    }
+                    // the parked packet was begun under the scheme in force before the push: either scheme may shape it
+                    let ok_under = |s: &Scheme| {
+                        if k < s.stop {
+                            match s.items(k) {
+                                Some(items) => refscheme::accept_packet(&items, payload, &writes).is_ok(),
+                                None => refscheme::accept_unpadded(payload, &writes).is_ok(),
+                            }
+                        } else {
+                            refscheme::accept_unpadded(payload, &writes).is_ok()
+                        }
+                    };
+                    packets_checked += 1;
+                    if !ok_under(&sch[current]) && !ok_under(&sch[*i]) {
+                        problems.push(json!({"symptom": "packet_not_shaped_by_pushed_scheme", "cause": "push_while_a_write_was_parked",
+                            "detail": format!("session {si} packet k={k} (payload {payload}), parked while scheme #{i} was pushed over scheme #{current}: writes {:?} are explained by neither", writes)}));
+                        break;
+                    }
+                    current = *i;
+                    pushes += 1;
+                    pushes_during_write += 1;
+                }
                 Step::PushGarbage(g) => {
                     if cv.peer.send(refcodec::UPDATE_PADDING, 0, &garbage(*g)).await.is_err() {
                         problems.push(json!({"symptom": "session_disturbed", "detail": "client side of the transport is gone"}));
@@ -232,12 +289,12 @@ async fn run_history(h: &History) -> Value {
             break;
         }
     }
-    json!({"problems": problems, "packets_checked": packets_checked, "packets_after_push": packets_after_push, "pushes": pushes, "panics": run::panic_log()})
+    json!({"problems": problems, "packets_checked": packets_checked, "packets_after_push": packets_after_push, "pushes": pushes, "pushes_during_write": pushes_during_write, "panics": run::panic_log()})
 }
 
 pub fn history_to_json(h: &History) -> Value {
     json!({"kind": "c19", "seed": h.seed.to_string(), "default_used_before": h.default_used_before,
-        "sessions": h.sessions.iter().map(|s| s.iter().map(|st| match st { Step::Packet(n) => json!({"packet": n}), Step::Push(i) => json!({"push": i}), Step::PushGarbage(g) => json!({"garbage": g}) }).collect::<Vec<_>>()).collect::<Vec<_>>()})
+        "sessions": h.sessions.iter().map(|s| s.iter().map(|st| match st { Step::Packet(n) => json!({"packet": n}), Step::Push(i) => json!({"push": i}), Step::PushGarbage(g) => json!({"garbage": g}), Step::PushDuringWrite(i, n) => json!({"push_during_write": [i, n]}) }).collect::<Vec<_>>()).collect::<Vec<_>>()})
 }
 
 pub fn history_from_json(v: &Value) -> Option<History> {
@@ -251,6 +308,8 @@ pub fn history_from_json(v: &Value) -> Option<History> {
                 steps.push(Step::Push(i as usize));
             } else if let Some(g) = st.get("garbage").and_then(|x| x.as_u64()) {
                 steps.push(Step::PushGarbage(g as u8));
+            } else if let Some(a) = st.get("push_during_write").and_then(|x| x.as_array()) {
+                steps.push(Step::PushDuringWrite(a.first()?.as_u64()? as usize, a.get(1)?.as_u64()? as usize));
             }
         }
         sessions.push(steps);
@@ -285,6 +344,7 @@ pub fn record(rep: &mut Report, h: &History, v: Option<Value>) {
     rep.add("packets_checked", v.get("packets_checked").and_then(|x| x.as_u64()).unwrap_or(0));
     rep.add("packets_checked_after_a_push", v.get("packets_after_push").and_then(|x| x.as_u64()).unwrap_or(0));
     rep.add("pushes", v.get("pushes").and_then(|x| x.as_u64()).unwrap_or(0));
+    rep.add("pushes_while_a_client_write_was_parked", v.get("pushes_during_write").and_then(|x| x.as_u64()).unwrap_or(0));
     if let Some(ps) = v.get("problems").and_then(|x| x.as_array()) {
         for p in ps {
             let sym = p.get("symptom").and_then(|x| x.as_str()).unwrap_or("?");
